@@ -15,10 +15,10 @@ def masked_mse_loss(
 
     Parameters
     ----------
-    predictions : array, shape (n_samples, n_features)
+    predictions : array, shape (n_samples, n_features) or (n_samples,)
         Predicted values.
 
-    targets : array, shape (n_samples, n_features)
+    targets : array, shape (n_samples, n_features) or (n_samples,)
         Target values.
 
     mask : array, shape (n_samples,)
@@ -29,10 +29,12 @@ def masked_mse_loss(
     loss : float
         Masked mean squared error loss.
     """
-    return jnp.mean(
-        optax.squared_error(predictions=predictions, targets=targets)
-        * mask[:, jnp.newaxis]
+    squared_error = optax.squared_error(
+        predictions=predictions, targets=targets
     )
+    # one mask entry per sample (row), also for 1-D predictions
+    mask = mask.reshape(mask.shape + (1,) * (squared_error.ndim - mask.ndim))
+    return jnp.mean(squared_error * mask)
 
 
 def stochastic_policy_gradient_pseudo_loss(
